@@ -9,14 +9,15 @@
    predicate shown; run counts R, run numbers r, and the archive (hence its size n) are unrestricted
    (R = 0 is treated as 1 by the runner itself; r is not even required to be within 1..R).
 
-   Predicates (Saver.v):  no_nl name      = no line break in the name            (naming theorems; the regexps' [.] stops at a
-                                                                                   line break, names with one are not covered here)
+   Predicates (Saver.v):  no_nl name      = no line break in the name            (only for "JSON set name = run id"; key
+                                                                                   independence itself is proved for ALL names)
                           label_safe name = the name contains neither the text "(1/1)" nor the text "As-Is"   (label theorems;
                                             tight: see the two _boundary examples at the end)
                           plain_name      = both.   The completeness / faithfulness theorems need no condition on the name. *)
-From Coq Require Import String Ascii List Bool Arith Permutation.
-From Crem Require Import Base.Res Saver SaverProofs.
+From Coq Require Import String Ascii List Bool Arith Permutation ZArith QArith.
+From Crem Require Import Base.Res Saver SaverProofs Catchment BoolArchive SaverCatchment.
 Import ListNotations.
+Open Scope nat_scope.
 Open Scope string_scope.
 
 (* ---- naming: file stem, set id, JSON set name, and the whole list of files written do not depend on the key ---- *)
@@ -42,6 +43,38 @@ Theorem C12_naming_deterministic_single :
     /\ json_set_name k1 = Ok (run_id name R r) /\ json_set_name k2 = Ok (run_id name R r)
     /\ forall t l, files_written t l (keys summary) k1 = files_written t l (keys summary) k2.
 Proof. exact c12_naming_single. Qed.
+
+(* ... and for EVERY run id (no condition on the scenario name at all: line breaks, parentheses, "Solution (", ... included):
+   all four derivations take one value on all keys of the summary and the JSON set name never panics.  With a line break
+   in the name the set name is no longer the run id (the regexps' [.] stops at the break: it is the last line of the run
+   id, or an earlier line's prefix up to " Solution") -- see C12_line_break_truncates_set_name -- but it is still one value. *)
+Theorem C12_naming_deterministic_all_names_multi :
+  forall (St V : Type) (init : St) (decompress : string -> St -> St) (enc_of : St -> string) (vals_of : St -> V)
+         (run : string) (arch : list string) (st0 : St) (k1 k2 : string),
+    let summary := snd (save_set St V init decompress enc_of vals_of run arch st0) in
+    In k1 (keys summary) -> In k2 (keys summary) ->
+    file_stem k1 = file_stem k2 /\ set_id k1 = set_id k2
+    /\ json_set_name k1 = json_set_name k2 /\ is_ok (json_set_name k1) = true
+    /\ forall t l, files_written t l (keys summary) k1 = files_written t l (keys summary) k2.
+Proof. exact c12_naming_all_names_multi. Qed.
+
+Theorem C12_naming_deterministic_all_names_single :
+  forall (St V : Type) (init : St) (decompress : string -> St -> St) (enc_of : St -> string) (vals_of : St -> V)
+         (run : string) (e : string) (st0 : St) (k1 k2 : string),
+    let summary := snd (save_optimised St V init decompress enc_of vals_of run e st0) in
+    In k1 (keys summary) -> In k2 (keys summary) ->
+    file_stem k1 = file_stem k2 /\ set_id k1 = set_id k2
+    /\ json_set_name k1 = json_set_name k2 /\ is_ok (json_set_name k1) = true
+    /\ forall t l, files_written t l (keys summary) k1 = files_written t l (keys summary) k2.
+Proof. exact c12_naming_all_names_single. Qed.
+
+(* what a line break in the name does (replayed on the real code by the correspondence cases with such names) *)
+Example C12_line_break_truncates_set_name :
+  let name := String "a" (String "010" "b") in
+  map json_set_name [as_is_id (run_id name 3 2); member_id (run_id name 3 2) 1 2] = [Ok "b (2/3)"; Ok "b (2/3)"]
+  /\ map set_id [as_is_id (run_id name 3 2); member_id (run_id name 3 2) 1 2]
+     = [String "a" (String "010" "b (2/3) Summary"); String "a" (String "010" "b (2/3) Summary")].
+Proof. vm_compute. split; reflexivity. Qed.
 
 (* ---- labels: the label column, in closed form, and its uniqueness ---- *)
 
@@ -148,6 +181,71 @@ Theorem C12_rows_faithful_single :
       r_vals x = vals_of (decompress (r_enc x) init).
 Proof. exact rows_faithful_optimised. Qed.
 
+(* ---- rows faithful, for the CONCRETE catchment model: the three hypotheses above are discharged in SaverCatchment.v from
+        C01 (CatchmentProofs.same_set_same_values / inv_obs: every reachable state is valued as its active set alone says)
+        and C09 (BoolArchiveProofs.roundtrip_of_bits / canonical_of_bits), for the instance
+          St := Catchment.state, init := fresh d, decompress e s := Catchment.decompress d s (bits decoded from e by the real Decode),
+          enc_of s := Compress(model).Encoding() of the active flags, vals_of s := six totals + every per-unit value (grid units).
+        What remains are boolean conditions: a well-formed data set with at least one action (C09's n >= 1), and archive
+        members that carry one flag per action. ---- *)
+
+Theorem C12_rows_faithful_catchment :
+  forall (d : dataset), wf_dataset d = true -> (1 <=? nactions d)%nat = true ->
+  forall (members : list (list bool)), forallb (fun bs => (length bs =? nactions d)%nat) members = true ->
+  forall (run : string) (st0 : state) (order : summary (list vobs)) (x : row (list vobs)),
+    Permutation order (snd (save_set state (list vobs) (c_init d) (c_decompress d) (c_enc_of d) (c_vals_of d)
+                                     run (map enc_bits members) st0)) ->
+    In x (as_sorted_array order) ->
+    (* the row's values are those of a FRESH model to which the action set decoded from the row's own encoding is applied *)
+    r_vals x = o_vars (obs_of d (apply_set d (bits_of (nactions d) (r_enc x)))).
+Proof. exact c12_rows_faithful_catchment. Qed.
+
+Theorem C12_rows_faithful_catchment_single :
+  forall (d : dataset), wf_dataset d = true -> (1 <=? nactions d)%nat = true ->
+  forall (optimised : list bool), (length optimised =? nactions d)%nat = true ->
+  forall (run : string) (st0 : state) (order : summary (list vobs)) (x : row (list vobs)),
+    Permutation order (snd (save_optimised state (list vobs) (c_init d) (c_decompress d) (c_enc_of d) (c_vals_of d)
+                                           run (enc_bits optimised) st0)) ->
+    In x (as_sorted_array order) ->
+    r_vals x = o_vars (obs_of d (apply_set d (bits_of (nactions d) (r_enc x)))).
+Proof. exact c12_rows_faithful_catchment_single. Qed.
+
+(* the whole array in closed form: as-is row (no flag set), then row k = member k's encoding and THE valuation of member k's
+   flags (canon_obs is the history-free spec of C01) *)
+Theorem C12_rows_explicit_catchment :
+  forall (d : dataset), wf_dataset d = true -> (1 <=? nactions d)%nat = true ->
+  forall (members : list (list bool)), forallb (fun bs => (length bs =? nactions d)%nat) members = true ->
+  forall (run : string) (st0 : state) (order : summary (list vobs)),
+    Permutation order (snd (save_set state (list vobs) (c_init d) (c_decompress d) (c_enc_of d) (c_vals_of d)
+                                     run (map enc_bits members) st0)) ->
+    as_sorted_array order
+    = mk_row 0 (row_label (as_is_id run)) (o_vars (canon_obs d (fun _ => false)))
+             (enc_bits (repeat false (nactions d))) as_is_note
+      :: catchment_member_rows d run (length members) 1 members.
+Proof. exact c12_rows_explicit_catchment. Qed.
+
+(* non-vacuity of the catchment instance: the three-action data set of Properties/C01.v; two members; what the saver
+   writes for run 2 of 3 (labels, encodings, sediment total in 0.001 t) *)
+Definition C12_ex_d : dataset :=
+  mkData [3; 5]%Z
+    [ mkAction 3 Gully [(OriginalGullySediment, 7 # 2); (ActionedGullySediment, 1 # 2); (ImplementationCostVar, 1000 # 1)];
+      mkAction 3 Riparian [(OriginalBufferVegetation, 1 # 5); (ActionedBufferVegetation, 3 # 4);
+                            (OriginalRiparianSedimentProduction, 9 # 1); (ActionedRiparianSedimentProduction, 2 # 1);
+                            (ImplementationCostVar, 250 # 1)];
+      mkAction 5 HillSlope [(HillSlopeErosionOriginalAttribute, 11 # 3); (HillSlopeErosionActionedAttribute, 5 # 3)] ]
+    (fun _ _ => mkCtx (1 # 5) (9 # 1) (7 # 2) (11 # 3) 0 0) None.
+Example C12_catchment_nonvacuous :
+  let members := [[true; false; true]; [false; true; true]] in
+  wf_dataset C12_ex_d = true /\ (1 <=? nactions C12_ex_d)%nat = true
+  /\ forallb (fun bs => (length bs =? nactions C12_ex_d)%nat) members = true
+  /\ map (fun x => (r_label x, r_enc x, option_map o_total (hd_error (r_vals x))))
+         (as_sorted_array (rev (snd (save_set state (list vobs) (c_init C12_ex_d) (c_decompress C12_ex_d) (c_enc_of C12_ex_d)
+                                              (c_vals_of C12_ex_d) (run_id "P" 3 2) (map enc_bits members) (fresh C12_ex_d)))))
+     = map (fun x => (r_label x, r_enc x, option_map o_total (hd_error (r_vals x))))
+           (mk_row 0 "As-Is" (o_vars (canon_obs C12_ex_d (fun _ => false))) "0" as_is_note
+            :: catchment_member_rows C12_ex_d (run_id "P" 3 2) 2 1 members).
+Proof. vm_compute. repeat split; reflexivity. Qed.
+
 (* ---- non-vacuity ---- *)
 
 (* names meeting the predicates, including ones full of what the regular expressions key on *)
@@ -196,6 +294,8 @@ Proof. vm_compute. reflexivity. Qed.
 
 Print Assumptions C12_naming_deterministic_multi.
 Print Assumptions C12_naming_deterministic_single.
+Print Assumptions C12_naming_deterministic_all_names_multi.
+Print Assumptions C12_naming_deterministic_all_names_single.
 Print Assumptions C12_labels_multi.
 Print Assumptions C12_labels_unique_multi.
 Print Assumptions C12_labels_single.
@@ -206,3 +306,6 @@ Print Assumptions C12_rows_complete_single.
 Print Assumptions C12_rows_explicit_multi.
 Print Assumptions C12_rows_faithful_multi.
 Print Assumptions C12_rows_faithful_single.
+Print Assumptions C12_rows_faithful_catchment.
+Print Assumptions C12_rows_faithful_catchment_single.
+Print Assumptions C12_rows_explicit_catchment.
